@@ -1034,6 +1034,21 @@ def check_autoname_case(ctx, case):
       br = [(lambda m, v, a=a: Leaf()(v) + a) for a in adds]
       if lifted and kind == 'cond':
         y = nn.cond(sel, br[0], br[1], self, pre)
+      elif kind == 'while':
+        n_it = int(case['sel'])
+        if lifted:
+          def body_fn(m, c):
+            return c[0] + 1, Leaf()(c[1]) % 1000  # one auto-named sub-module, traced once
+
+          c = (I(0), pre)
+          # variables cannot be created inside the loop: run the body once when initialising
+          c = body_fn(self, c) if self.is_initializing() else nn.while_loop(lambda m, c: c[0] < n_it, body_fn, self, c)
+          y = c[1]
+        else:
+          body = Leaf()  # the same sub-module, shared by all iterations
+          y = pre
+          for _ in range(1 if self.is_initializing() else n_it):
+            y = body(y) % 1000
       elif lifted:
         y = nn.switch(sel, br, self, pre)
       elif kind == 'cond':
@@ -1062,7 +1077,10 @@ def check_autoname_case(ctx, case):
 
 
 def gen_autoname_case(rng):
-  kind = rng.choice(['cond', 'switch'])
+  kind = rng.choice(['cond', 'switch', 'while', 'while'])
+  if kind == 'while':
+    return {'kind': 'autoname', 'transform': 'while', 'adds': [0], 'sel': rng.randrange(0, 4), 'ws': [rng.randrange(2, 6) for _ in range(3)],
+            'w_init': rng.randrange(2, 5), 'x': rng.randrange(1, 4), 'init': rng.random() < 0.3}
   n = 2 if kind == 'cond' else rng.randrange(1, 4)
   return {
     'kind': 'autoname', 'transform': kind, 'adds': [rng.randrange(0, 3) for _ in range(n)],
@@ -2059,7 +2077,7 @@ def run(ctx):
     ctx.corpus_replayed += 1
     run_case(ctx, drv, obj.get('case', obj))
   scale = 12 if thorough else 1
-  plan = [('modscopes', 24), ('attrmods', 10), ('multimethod', 8), ('deepchild', 12), ('setupchild', 10), ('autoname', 8), ('history', 24), ('jit', 20), ('remat', 28), ('mapvars', 24), ('cond', 24), ('switch', 22), ('while', 22)]
+  plan = [('modscopes', 24), ('attrmods', 10), ('multimethod', 8), ('deepchild', 12), ('setupchild', 10), ('autoname', 12), ('history', 24), ('jit', 20), ('remat', 28), ('mapvars', 24), ('cond', 24), ('switch', 22), ('while', 22)]
   cases = gen_condpred_cases(rng, len(PRED_SPECS) * scale)
   for what, n in plan:
     for _ in range(n * scale):
